@@ -390,6 +390,10 @@ func dupResolution(r *sim.Record, v *ersView) []V {
 	}
 	var out []V
 	for _, node := range v.targeted(r.Pre) {
+		// the canary role serves (and cleans up) the canary nodes only; the others are the active role's
+		if v.role == oracle.RoleCanary && !oracle.Contains(v.canaryNodes, node.Name) {
+			continue
+		}
 		pods := nonUnknown(v.podsByNode[node.Name])
 		var live []*corev1.Pod
 		for _, p := range pods {
@@ -452,7 +456,9 @@ func ineligibleCleanup(r *sim.Record, v *ersView) []V {
 func unknownUntouched(r *sim.Record) []V {
 	var out []V
 	for _, c := range r.Calls {
-		if c.Kind != "Pod" || !c.Write || c.Verb == "create" {
+		// only deletions: removing the canary label from a pod that meanwhile went Unknown is harmless
+		// bookkeeping and not what the statement is about (Unknown pods are left to the pod garbage collector)
+		if c.Kind != "Pod" || c.Verb != "delete" {
 			continue
 		}
 		p := r.Pre.PodByKey(c.NS, c.Name)
@@ -790,4 +796,92 @@ func rsStatusOrder(r *sim.Record, v *ersView) []V {
 		return []V{{"C14", "rs-status-order", "C14/rs-status-order/role=" + string(v.role), fmt.Sprintf("replica set %s (%s) reports desired=%d current=%d ready=%d available=%d, violating 0<=available<=ready<=current<=desired", post.Name, v.role, s.Desired, s.Current, s.Ready, s.Available)}}
 	}
 	return nil
+}
+
+// Facts classifies the state a replica-set sync read (for the non-triviality rules of the checks).
+func Facts(r *sim.Record) []string {
+	v := viewERS(r)
+	if v == nil || v.eds == nil {
+		return nil
+	}
+	var out []string
+	add := func(s string) { out = append(out, s) }
+	add("role-" + string(v.role))
+	for nodeName, pods := range v.podsByNode {
+		if len(nonUnknown(pods)) >= 2 {
+			add("node-with-2+-pods")
+		}
+		node := r.Pre.NodeByName(nodeName)
+		if node == nil {
+			add("pod-on-absent-node")
+		} else if !oracle.Eligible(&v.rs.Spec.Template, node) {
+			add("pod-on-unfit-node")
+		}
+		for _, p := range pods {
+			if p.Status.Phase == corev1.PodUnknown {
+				add("unknown-pod")
+			}
+			if p.Status.Phase == corev1.PodFailed {
+				add("failed-pod")
+			}
+			if p.DeletionTimestamp != nil {
+				add("terminating-pod")
+			}
+		}
+	}
+	for _, n := range r.Pre.Nodes {
+		if len(n.Spec.Taints) > 0 || !oracle.MatchesSelectors(&v.rs.Spec.Template.Spec, n) {
+			add("eligibility-decided-by-taint-or-selector")
+			break
+		}
+	}
+	if v.role == oracle.RoleActive && v.full {
+		f := budgetOf(r, v)
+		outdated, missing := 0, 0
+		for _, n := range f.targeted {
+			if p, ok := f.clean[n.Name]; ok && p.Annotations[oracle.AnnTemplateHash] != v.rs.Spec.TemplateGeneration && p.DeletionTimestamp == nil {
+				outdated++
+			}
+			if len(v.podsByNode[n.Name]) == 0 {
+				missing++
+			}
+		}
+		if annTrue(v.eds, oracle.AnnRollingPaused) && outdated > 0 {
+			add("paused-with-outdated-pods")
+		}
+		if annTrue(v.eds, oracle.AnnRolloutFrozen) && outdated+missing > 0 {
+			add("frozen-with-work")
+		}
+		if annTrue(v.eds, oracle.AnnRollingPaused) && missing > 0 {
+			add("paused-with-missing-pods")
+		}
+		if int64(missing) > creationBound(r, v, len(f.targeted)) {
+			add("creation-cap-binding")
+		}
+		if outdated > f.maxU && f.maxUok {
+			add("deletion-budget-binding")
+		}
+	}
+	if v.role == oracle.RoleCanary && v.full {
+		missing := 0
+		for _, n := range v.canaryNodes {
+			if len(v.podsByNode[n]) == 0 {
+				missing++
+			}
+		}
+		paused := annTrue(v.eds, oracle.AnnCanaryPaused) || oracle.RSCondTrue(&v.rs.Status, edsv1.ConditionTypeCanaryPaused)
+		if paused && missing > 0 {
+			add("canary-paused-with-missing-pods")
+		}
+	}
+	if len(v.creates) > 0 {
+		add("creates")
+	}
+	if len(v.deletes) > 0 {
+		add("deletes")
+	}
+	if !v.full {
+		add("sync-skipped-by-frequency-gate")
+	}
+	return out
 }
